@@ -188,7 +188,7 @@ class Report:
         for e in unrep[:10]:
             self.harness_errors.append(f"counterexample did not reproduce on the real code: {e.get('id')}: "
                                        f"{str(e.get('detail'))[:600]}")
-        too_many_incon = n_obl > 0 and len(incon) > max(1, n_obl // 10)
+        too_many_incon = n_obl > 0 and len(incon) > max(1, n_obl // 50)
         if too_many_incon:
             self.harness_errors.append(f"{len(incon)} of {n_obl} obligations inconclusive")
         samples = []
